@@ -56,11 +56,24 @@ def validate(res, prop, judge, flags_a, flags_b, mode_a="plain", mode_b="wild", 
     n_a = 3000 if res.tier == "quick" else 60000
     n_b = 1500 if res.tier == "quick" else 6000
     a = run_region(flags_a, judge, n_a if region_a else 1, res.seed, mode_a)
+    if region_a and mode_a.startswith("plain"):
+        # second half of region A: comments also before and after the commas of expression lists and argument lists
+        mode_a2 = mode_a.replace("plain", "lists")
+        a2 = run_region(flags_a, judge, n_a // 2, res.seed + 1000003, mode_a2)
+        a2["bads"] = [(k, "L" + c) for k, c in a2["bads"]]
+        for k in ("cases", "nontrivial", "outside_model", "token_lists_compared", "trivia_calls_replayed", "comments_in_replayed_calls", "bad"):
+            a["tot"][k] = a["tot"].get(k, 0) + a2["tot"].get(k, 0)
+        for k, v in a2["stats"].items(): a["stats"][k] = a["stats"].get(k, 0) + v
+        a["bads"] += a2["bads"]; a["ok"] = a["ok"] and a2["ok"]; a["errs"] += a2["errs"]; a["samples"] += a2["samples"][:2]
     payloads = []
     for kind, cid in a["bads"][:200]:
         if len(payloads) >= 3: break
-        src = case_source(cid, res.seed, mode_a, flags_a) or {}
-        payloads.append(dict(kind="input", check=kind, case=cid, region="A (seeded, %s)" % mode_a, seed=res.seed, mode=mode_a, flags=list(flags_a), **src))
+        if cid.startswith("L"):
+            m, sd, cid2 = mode_a.replace("plain", "lists"), res.seed + 1000003, cid[1:]
+        else:
+            m, sd, cid2 = mode_a, res.seed, cid
+        src = case_source(cid2, sd, m, flags_a) or {}
+        payloads.append(dict(kind="input", check=kind, case=cid2, region="A (seeded, %s)" % m, seed=sd, mode=m, flags=list(flags_a), **src))
     cov = dict(region_a=dict(a["tot"], **a["stats"]), samples=a["samples"])
     known_n = 0
     if region_b:
